@@ -44,6 +44,8 @@ pub struct Parsed {
     pub namespaces: Vec<NsObs>,
     /// canonical, sorted multiset: "Missing|loc|path", "Surplus|loc|path", "UnusedForm|loc|path|form|rule"
     pub warnings: Vec<String>,
+    /// the same diagnostics in the order the loader emitted them
+    pub warnings_in_order: Vec<String>,
     pub tracked: Vec<String>,
 }
 
@@ -115,6 +117,7 @@ fn run_parse(dir: &PathBuf) -> Outcome {
                     Warning::NonUnicodePath { .. } => "NonUnicodePath".to_string(),
                 });
             }
+            parsed.warnings_in_order = parsed.warnings.clone();
             parsed.warnings.sort();
             match &keys {
                 BuildersKeys::Locales { locales, keys } => {
